@@ -24,6 +24,7 @@ impl Disc {
 }
 
 pub struct Pred {
+    pub last_fail: Option<Why>,
     /// contract -> every key it ever wrote in this history
     pub ever_written: BTreeMap<String, std::collections::BTreeSet<Vec<u8>>>,
     /// failures met by the reference before each trace entry
@@ -202,10 +203,14 @@ pub fn compare_traces(pred: &Pred, act: &Actual, top_ok_and_events_agree: Option
                 "own balance at entry"
             };
             // after a failure earlier in the same call a wrong balance may as well be a missing rollback
-            let after_failure = field == "own balance at entry" && pred.fail_before.get(i).copied().unwrap_or(0) > 0;
+            let failed_before = pred.fail_before.get(i).copied().unwrap_or(0) > 0;
+            let after_failure = field == "own balance at entry" && failed_before;
             let callee_entry = matches!(p.kind, Kind::Execute | Kind::Instantiate);
             return Some(Disc::new(
-                if after_failure && !callee_entry {
+                if field == "env.contract.address" && p.kind == Kind::Instantiate {
+                    // the address of a new contract: derivation (C11), or leaked registry state after a failure (C02)
+                    if failed_before { &["C02"] } else { &["C11"] }
+                } else if after_failure && !callee_entry {
                     &["C02"]
                 } else if after_failure {
                     &["C02", "C05"]
@@ -270,28 +275,25 @@ pub fn compare_traces(pred: &Pred, act: &Actual, top_ok_and_events_agree: Option
 }
 
 /// Ok/Err mismatch with identical traces.
-pub fn okerr_owners(pred: &Pred) -> Vec<&'static str> {
-    let mal = pred.whys.iter().filter(|(_, w)| matches!(w, Why::AfterMalformed)).count();
-    let ovd = pred.whys.iter().filter(|(_, w)| matches!(w, Why::Overdraft)).count();
-    let reg = pred.whys.iter().filter(|(_, w)| matches!(w, Why::RegistryReject)).count();
-    let una = pred.whys.iter().filter(|(_, w)| matches!(w, Why::Unauthorized)).count();
-    let mut owners = vec![];
-    if mal > 0 {
-        owners.push("C13");
+/// `root_leaf`: owner suggested by the kind of the top-level message when it is a single leaf
+/// (admin operation, instantiate, bank, custom), used when the real call failed unexpectedly.
+pub fn okerr_owners(pred: &Pred, act_ok: bool, root_leaf: Option<&'static str>) -> Vec<&'static str> {
+    if act_ok {
+        // the reference says the call fails; the failure that propagates in the reference tells whose rule was skipped
+        match &pred.last_fail {
+            Some(Why::AfterMalformed) => vec!["C13"],
+            Some(Why::Overdraft) => vec!["C05"],
+            Some(Why::RegistryReject) => vec!["C11"],
+            Some(Why::Unauthorized) => vec!["C12"],
+            _ => vec!["C02"],
+        }
+    } else {
+        // the real call failed although nothing in the reference fails
+        match root_leaf {
+            Some(o) => vec![o],
+            None => vec!["C02"],
+        }
     }
-    if ovd > 0 {
-        owners.push("C05");
-    }
-    if reg > 0 {
-        owners.push("C11");
-    }
-    if una > 0 {
-        owners.push("C12");
-    }
-    if pred.failures > mal + ovd + reg + una || owners.is_empty() {
-        owners.push("C02");
-    }
-    owners
 }
 
 pub fn compare_responses(pred: &[Resp], act: &[Resp]) -> Option<Disc> {
@@ -335,7 +337,7 @@ pub fn compare_state(pred: &Observed, act: &Observed, failures: usize, ever_writ
             (Some(p), Some(a)) => {
                 if (p.0, &p.1, &p.2, &p.3, p.4) != (a.0, &a.1, &a.2, &a.3, a.4) {
                     out.push(Disc::new(
-                        &["C11", "C12", rollback_owner],
+                        if failures > 0 { &["C02"] } else { &["C11", "C12"] },
                         "state:contract-info",
                         format!("contract {}: recorded (code_id, creator, admin, label, created) = {:?}, expected {:?}", addr, (a.0, &a.1, &a.2, &a.3, a.4), (p.0, &p.1, &p.2, &p.3, p.4)),
                     ));
